@@ -62,6 +62,15 @@ class RV:
     def __init__(self, j):
         self.j = j
 
+    def __lt__(self, o):          # byValue() sorts values
+        return self.j < o.j
+
+    def __eq__(self, o):
+        return isinstance(o, RV) and self.j == o.j
+
+    def __hash__(self):
+        return hash(self.j)
+
     def __reduce__(self):
         return (RV, (self.j,))
 
@@ -550,6 +559,30 @@ def extra_scenarios(ctx, rng):
                     ctx.oracle_failure("C:%s:isdisjoint:leak-on-failing-comparison" % kind, "OO%s.isdisjoint(list) with comparison #%d raising: reference counts moved by %r" % (
                         kind, failing, [x - y for x, y in zip(now, base)]), {"kind": kind, "failing": failing})
                 del a
+    # byValue(): the (value, key) pairs it returns are the only new references
+    for kind in ("Bucket", "BTree"):
+        cls = f.cls(kind, "C")
+        pk = [RK(i) for i in range(6)]
+        pv = [RV(i % 3) for i in range(6)]
+        with sizes([f.cls("BTree", "C"), f.cls("TreeSet", "C")], 2, 2):
+            t = cls()
+            for k, v in zip(pk, pv):
+                t[k] = v
+            k = v = None
+            base = [sys.getrefcount(o) for o in pk + pv]
+            for _ in range(3):
+                try:
+                    r = t.byValue(RV(1))
+                    del r
+                except Exception as e:  # noqa
+                    del e
+            now = [sys.getrefcount(o) for o in pk + pv]
+            nD += 1
+            ctx.count(("byValue", kind))
+            if now != base:
+                ctx.oracle_failure("C:%s:byValue:leak" % kind, "OO%s.byValue(min) three times, results dropped: reference counts of (keys..., values...) moved by %r" % (
+                    kind, [x - y for x, y in zip(now, base)]), {"kind": kind})
+            del t
     # plain iterables with repeated elements as operands: every element keeps exactly its references
     for fname in ("union", "intersection", "difference"):
         fn_ = f.func(fname, "C")
